@@ -31,7 +31,7 @@ TRUSTED_BASE = [
     'tables read from the running interpreter / the code into Generated/C17.lean: re \\s set, int() whitespace set, '
     'Unicode decimal-digit zero points, sys.get_int_max_str_digits(), the operator table of VersionPredicate '
     '(its dict of operator functions located by shape, else probed through satisfied_by on 1.0 < 1.5 < 2.0), '
-    'the clause pattern text/flags (the compiled regex located by type)',
+    'the clause grammar as observed through VersionPredicate(...) on a fixed family of ~330 clause texts',
     'packaging.version is a parameter of the model (parse -> abstract value with a major number, six comparison '
     'operators); the harness passes, per case, validity, the dense rank of Version._key and .major, and checks '
     'on every case that the six operators of packaging agree with comparing that rank',
@@ -190,14 +190,44 @@ def parsed_pairs(vp):
     return list(v) if _is_pair_list(v) else None
 
 
+PROBE_BOUND = '1.5'
+
+
+def clause_probes():
+    """[(clause text, accepted?)]: a fixed family of clauses around the bound 1.5 - every operator text and
+    near-miss, whitespace of every kind in every position, trailing debris - and whether
+    VersionPredicate(clause) constructs.  Read through the public API, so it does not matter how (or whether)
+    the code spells its pattern; the obligation predicate_probes_are_modelled re-checks the model's matcher
+    against it."""
+    VP = vu().VersionPredicate
+    ops = OP_TEXTS + ['', '=', '~=', '===', '<>', '=<', '=>', '!', '<<', '>>', '> =', '< =', '! =', '= =', '=!', '=='
+                      '=', '>==', '<=>']
+    texts = []
+    for op in ops:
+        for pre, mid, post in [('', '', ''), (' ', '', ''), ('', ' ', ''), ('', '', ' '), (' \t', '\n ', ' \r\n'),
+                               ('\x1c', '\x1f', '\x85'), ('\xa0', '\u2003', '\u3000'), ('\u200b', '', ''),
+                               ('', '\u200b', ''), ('', '', '\u200b'), ('x', '', ''), ('', '', ' 2'), ('', '', ' <2'),
+                               ('', '', '\n\n'), ('\x0b\x0c', '', '\x0b\x0c'), ('', '', '\x00')]:
+            texts.append(pre + op + mid + PROBE_BOUND + post)
+    texts += [op + ws for op in OP_TEXTS for ws in ('', ' ')]          # operator without a version
+    out, seen = [], set()
+    for t in texts:
+        if t in seen or ',' in t:
+            continue
+        seen.add(t)
+        try:
+            VP(t)
+            ok = True
+        except ValueError:
+            ok = False
+        out.append((t, ok))
+    return out
+
+
 def tables():
     t = char_tables()
     comp, how = comparator_table()
-    pm = clause_regex()
-    if pm is None:
-        raise HarnessBlind('the clause pattern of VersionPredicate is not an attribute of the class or the module '
-                           '(the obligation predicate_pattern_is_modelled cannot be re-checked)')
-    t.update({'comp': comp, 'comp_how': how, 'pattern': pm.pattern, 'flags': pm.flags})
+    t.update({'comp': comp, 'comp_how': how, 'probes': clause_probes()})
     return t
 
 
@@ -239,14 +269,14 @@ def intMaxStrDigits : Nat := %d
     there is none, what each operator text does on the lattice 1.0 < 1.5 < 2.0 through the public API) -/
 def compMap : List (List Char × List Char) := [%s]
 
-/-- the clause pattern of VersionPredicate (the compiled regex, located by type): .pattern / .flags -/
-def predicatePattern : List Char := %s
-def predicateFlags : Nat := %d
+/-- the clause grammar observed through the public API: (clause text around the bound 1.5, does
+    `VersionPredicate(text)` construct?) -/
+def clauseProbes : List (List Char × Bool) := [%s]
 
 end Oslo.Version.Gen
 ''' % (nat_list(t['re_space']), nat_list(t['int_space']), nat_list(t['zeros']), t['max_digits'],
        ', '.join('(%s, %s)' % (lean_chars(k), lean_chars(v)) for k, v in t['comp']),
-       lean_chars(t['pattern']), int(t['flags']))
+       ',\n  '.join('(%s, %s)' % (lean_chars(k), 'true' if v else 'false') for k, v in t['probes']))
     common.write_if_changed(GEN_PATH, src)
 
 
@@ -448,6 +478,8 @@ def impl_match(piece):
 
 
 LOW_VERSION, HIGH_VERSION = '0.dev0', '9999!0'
+LOW_STRUCT = {'epoch': 0, 'release': [0], 'pre': None, 'post': None, 'dev': 0, 'local': None}
+HIGH_STRUCT = {'epoch': 9999, 'release': [0], 'pre': None, 'post': None, 'dev': None, 'local': None}
 
 
 # --------------------------------------------------------------------------
@@ -820,8 +852,9 @@ def correspondence(ctx):
     vcases += pcases
     # the same predicates seen from more candidates: at every bound, below all, above all
     for c in pcases[::3]:
-        for cand in [render_v(v) for _, v in c['comps']] + [LOW_VERSION, HIGH_VERSION]:
-            vcases.append(dict(c, ver=cand, ver_struct=None, probe=True))
+        for st in [v for _, v in c['comps']] + [LOW_STRUCT, HIGH_STRUCT]:
+            vcases.append(dict(c, ver=render_v(st), ver_struct=st, probe=True,
+                               malformed=None if c['malformed'] == 'badcand' else c['malformed']))
     vcases += piece_cases
     for r, c, sm in [('1.0', '1.0', True), ('1.0', '1.0.0', True), ('1', '2', False), ('1', '2', True), ('2', '1', False),
                      ('1!0.1', '2.0', False), ('1.0', '1!1.0', True), ('0', '0.0.0', True), ('1.0rc1', '1.0', True),
@@ -1014,14 +1047,17 @@ def oracle(case):
                 return 'malformed predicate %r raised %s, not ValueError' % (case['pred'], type(e).__name__)
             return 'malformed predicate %r (%s) accepted: satisfied_by(%r) = %r' % (
                 case['pred'], case['malformed'], case['ver'], r)
-        kc = vkey(case.get('ver_struct'), case['ver'])
-        want = all(OPF[op](kc, vkey(v, None)) for op, v in case['comps'])
+        cs = case.get('ver_struct')
+        kc = vkey(cs, case['ver'])
+        # one kind of key on both sides: the structural one, or packaging's when the candidate is a bare string
+        bound = (lambda v: vkey(v, None)) if cs is not None else (lambda v: pv().Version(render_v(v)))
+        want = all(OPF[op](kc, bound(v)) for op, v in case['comps'])
         try:
             got = m.VersionPredicate(case['pred']).satisfied_by(case['ver'])
         except Exception as e:
             got = e
         if got is not want:
-            each = ['%s%s:%s' % (op, render_v(v), OPF[op](kc, vkey(v, None))) for op, v in case['comps']]
+            each = ['%s%s:%s' % (op, render_v(v), OPF[op](kc, bound(v))) for op, v in case['comps']]
             return 'VersionPredicate(%r).satisfied_by(%r) = %r, the comparisons give %s' % (
                 case['pred'], case['ver'], got, ' '.join(each))
         return None
@@ -1186,7 +1222,11 @@ def search(ctx, seeds, full=False):
     for case in todo:
         ctx.evaluations += 1
         ctx.count('search/' + case['prop'])
-        why = oracle(case)
+        try:
+            why = oracle(case)
+        except Exception as e:      # the oracle itself tripped over a case (harness side): not an outcome
+            ctx.count('search/oracle-error/' + type(e).__name__)
+            continue
         if why:
             kind = case['prop'] + ('/malformed' if case.get('malformed') else '')
             if kind in kinds and len(fails) >= 1:
@@ -1275,7 +1315,8 @@ LEVEL_TEXT = ('Machine-checked proof (Lean 4) over a hand-written model of versi
               'is removed (also before one final newline); a component with a non-numeric character, or an empty one, '
               'raises ValueError; VersionPredicate parses each comma-separated piece by the regex (soundness and '
               'completeness against a declarative grammar) and satisfied_by is the conjunction of all comparisons; '
-              'a malformed predicate raises ValueError; _COMP_MAP (generated from the code) maps each operator text '
+              'a malformed predicate raises ValueError; the operator table and the clause grammar (both read from the '
+              'running code, by shape or through the public API) map each operator text '
               'to the operator it denotes. Partial by nature: PEP 440 parsing/ordering is an abstract parameter '
               '(is_compatible and the predicate are proved relative to it; the harness checks on every case that '
               'packaging\'s six operators derive from one total preorder and, in the search, compares the '
